@@ -367,6 +367,14 @@ def run(ctx):
     else:
         ctx.assumptions.append("corpus directory absent: no real-section traces were validated")
 
+    if q and len(traces) > 1:
+        # one TLC start for all traces (table events reset the trace spec's state)
+        allp = os.path.join(ctx.work, "lookup-all.ndjson")
+        with open(allp, "w") as f:
+            for tr, _ in traces:
+                f.write(open(tr).read())
+        traces = [(allp, "+".join(t for _, t in traces))]
+
     def gjob(j):
         tag, module, cfg = j
         return tag, ctx.tlc(module, cfg, workers=each, cases_name=tag, timeout=6000)
